@@ -9,7 +9,7 @@ def register(claim, na):
           "(compiler pattern semantics, no execution); every marker row of types() is cross-checked against origins() and the "
           "variant docs; provenance of every inserted path is the argument or a parent() of it, and the ancestor loop only "
           "ends on parent()==None and moves up on every round; check_list is `any marker present`; a listing is keyed by the entries' own names and read from "
-          "exactly the given path, lookups use the marker as written with absent => false; the CLI asks for the types of the project origin. This is the "
+          "exactly the given path, lookups use the marker as written with absent => false; the CLI asks for the types of the project origin. Every path through the CLI's vcs_types goes through types(origin) and the CLI's candidate origins are origins(path) or the working directory as given. This is the "
           "finite-table content of the property; what the filesystem returns is not decided, nor are the markers that only origins() lists (single-source table).",
           "trusts rustc's THIR/MIR, FileType::is_file/is_dir, Path::parent, HashMap/HashSet; directory listing behaviour is not modelled",
           "DESIGN.md section 5 C20")
@@ -17,14 +17,14 @@ def register(claim, na):
           "Exhaustive over the finite tables: the seven first-class signals round-trip through to_nix/from_nix/From<i32> with the "
           "POSIX numbers read from nix's compiled enum, the unix Display string of each is the identifier of its nix variant, "
           "every name lookup is upper-cased, the Windows table shadows a unix name only for the documented STOP, and the "
-          "ExitStatus -> ProcessEnd arms preserve success / code / signal. Decided by compiler pattern semantics; nothing is executed.",
+          "ExitStatus -> ProcessEnd arms preserve success / code / signal. The unix signal source attaches the same-named variant to each OS listener, the JSON name of a signal is its display name, and into_exitstatus shifts the whole exit-code byte. Decided by compiler pattern semantics; nothing is executed.",
           "trusts nix's FromStr/TryFrom<i32> name table, std ExitStatus accessors, rustc THIR/MIR; signal numbers outside the first-class set are delegated to nix",
           "DESIGN.md section 5 C19")
     claim("C16", "proof", "finite-structure round-trip theorem: compiler pattern semantics + constructor evaluation over the THIR of the Tag<->SerdeTag and Signal<->SerdeSignal conversions, all 41 file-event kinds enumerated from the compiled enums (both notify and sans_notify configurations in the thorough tier)",
           "Exhaustive over every Tag shape (each tag kind, each of the 41 file-event kinds via its derived-Debug rendering, each exit "
           "disposition with symbolic payloads, each first-class signal and Custom): decode(encode(t)) == t is established by evaluating "
           "only patterns and constructors of the two From impls; decoder arms are kind-consistent, the fall-through is Tag::Unknown, and "
-          "every NonZero::new_unchecked is guarded, and the derived readers of the mirror structs ignore unknown fields. serde/serde_json themselves are trusted, so this is the conversion-layer theorem, not an "
+          "every NonZero::new_unchecked is guarded, and the derived readers of the mirror structs ignore unknown fields. The `simple` value of each of the 41 kinds is its outer kind (other for Any/Other) and the CLI's JSON events file is written one complete document per line. serde/serde_json themselves are trusted, so this is the conversion-layer theorem, not an "
           "observation of serialised bytes.",
           "trusts serde derive + serde_json for the Serde* mirror types, derived Debug output format, the NonZero invariant; payloads (paths, pids, metadata) are opaque values that the conversions only move",
           "DESIGN.md section 5 C16")
@@ -69,7 +69,7 @@ def register(claim, na):
     claim("C10", "other", "MIR dominance order in PriorityReceiver::recv, def-use pairing of channel ends, THIR tables for PrioritySender::send and the Job API, send_controls loop shape",
           "Decides: expired timer > urgent > high is checked in that order before any blocking wait, normal is waited on only without a timer, each "
           "priority maps to its own channel on both ends, multi-control operations are enqueued back to back at one priority and return the last "
-          "ticket, single consumer, no re-queueing. FIFO-ness of tokio mpsc is trusted.",
+          "ticket, single consumer, no re-queueing. A ticket resolves only through its two flags and Flag::poll answers Ready only after loading the flag as set. FIFO-ness of tokio mpsc is trusted.",
           "trusts tokio unbounded mpsc FIFO order and select! semantics", "DESIGN.md section 5 C10")
     TC = "THIR path enumeration of one throttle_collect iteration (52 syntactic / 24 feasible paths, predicate-consistency filter, let-substitution, boolean implication on branch conditions)"
     claim("C01", "other", TC + "; MIR who-may-call / def-use for the single reader, single handler call and the batch hand-over; THIR tables for source priorities",
